@@ -4,7 +4,7 @@
     transliteration of the C parser computes on the declared bytes.  Only statements closed by
     [exact]; proofs live in ParseSound*.v.  (Ledger: C01/C07; parse end: C10.) *)
 From CJ Require Import Base Dbl Tree LibcNum ParseDefs ParseSpec Grammar ParseRefine
-  ParseSoundUtf8 ParseSoundGrammar ParseSound ParseSoundReject ParseSoundCtx ParseSoundIncl ParseSoundEntry
+  ParseSoundUtf8 ParseSoundGrammar ParseSound ParseSoundReject ParseSoundCtx ParseSoundIncl ParseSoundInclRef ParseSoundEntry
   ParseSoundExamples.
 Local Open Scope Z_scope.
 
@@ -426,8 +426,10 @@ Print Assumptions C03_context_example_rejected.
 Theorem C03_strtod_ref_hyps : strtod_ok strtod_ref /\ strtod_stable strtod_ref.
 Proof. exact strtod_ref_hyps. Qed.
 Print Assumptions C03_strtod_ref_hyps.
-(* the contract [strtod_rfc] of section 2 holds for the reference strtod: ParseSoundInclRef.strtod_ref_rfc_contract
-   (= ParseComplete.strtod_ref_rfc, property C02); kept out of this file so that it does not depend on ParseComplete.v *)
+(** the contract [strtod_rfc] of section 2 holds for the reference strtod (ParseComplete.v, C02) *)
+Theorem C03_strtod_ref_rfc : strtod_rfc strtod_ref.
+Proof. exact strtod_ref_rfc_contract. Qed.
+Print Assumptions C03_strtod_ref_rfc.
 
 (** a text using every leniency (0x01 as whitespace, a raw 0x01 in a string, the numbers 01 and 1.)
     is accepted, with and without required termination, derives in the lenient grammar, and
